@@ -209,7 +209,7 @@ package keyvalue
 // ---- lazily evaluated record view of a handle (record.go) ----
 
 //@ spec roInv(r *runOnceFileRecord) := r != nil && r.record != nil && (r.dataDone == 0 || r.dataDone == 1) && iff(r.dataDone == 1, oncedone(r.dataOnce)) &&
-//@        implies(r.dataDone == 1 && r.dataErr == nil, r.data != nil && blob.blobOK(r.data))
+//@        implies(r.dataDone == 1 && r.dataErr == nil, r.data != nil)
 //@ spec recDataBlob(r *runOnceFileRecord) := ret("keyvalue.(FileRecord).Data", 0, r.record)
 //@ spec recDataErr(r *runOnceFileRecord) := ret("keyvalue.(FileRecord).Data", 1, r.record)
 //@ spec curBlob(r *runOnceFileRecord) := ite(r.dataDone == 1, payload(r.data), payload(recDataBlob(r)))
@@ -218,18 +218,19 @@ package keyvalue
 //@ func (r *runOnceFileRecord) Data() (b blob.Blob, err error)
 //@   props C02 C14 C17
 //@   requires roInv(r)
-//@   requires "blob-ok" implies(r.dataDone == 0 && recDataErr(r) == nil, blob.blobOK(recDataBlob(r)))
 //@   modifies r.data, r.dataErr, r.dataDone, oncedone(r.dataOnce)
 //@   ensures "first" implies(!old(oncedone(r.dataOnce)), b == old(recDataBlob(r)) && err == old(recDataErr(r)))
 //@   ensures "cached" implies(old(oncedone(r.dataOnce)), b == old(r.data) && err == old(r.dataErr))
 //@   ensures "state" r.data == b && r.dataErr == err && r.dataDone == 1 && oncedone(r.dataOnce) && r.record == old(r.record)
+//@   ensures "result" implies(err == nil, b != nil) && roInv(r)
 //@   nopanic
 
 //@ spec liveSize(r *runOnceFileRecord) := ite(r.dataDone == 1 && r.dataErr == nil && r.data != nil, blob.blobLen(r.data), ret("keyvalue.(FileRecord).Size", 0, r.record))
 
+//@ spec roDataOK(r *runOnceFileRecord) := implies(r.dataDone == 1 && r.dataErr == nil, blob.blobOK(r.data))
 //@ func (r *runOnceFileRecord) Size() (n int64)
 //@   props C02 C14 C17
-//@   requires roInv(r)
+//@   requires roInv(r) && roDataOK(r)
 //@   ensures "live" n == liveSize(r)
 //@   ensures "range" 0 <= n && n <= 1<<62
 //@   pure
@@ -286,7 +287,7 @@ package keyvalue
 //@ spec fdMTime(d *fileData) := ite(d.modTimeOverride != 0, d.modTimeOverride, mtimeOf(d.runOnceFileRecord))
 //@ spec fdData(d *fileData) := ite(d.runOnceFileRecord.dataDone == 1, d.runOnceFileRecord.data, recDataBlob(d.runOnceFileRecord))
 //@ spec fdDataErr(d *fileData) := ite(d.runOnceFileRecord.dataDone == 1, d.runOnceFileRecord.dataErr, recDataErr(d.runOnceFileRecord))
-//@ spec fdInv(d *fileData) := d != nil && roInv(d.runOnceFileRecord) && implies(fdDataErr(d) == nil, blob.blobOK(fdData(d)))
+//@ spec fdInv(d *fileData) := d != nil && roInv(d.runOnceFileRecord)
 //@ spec srcOK(src FileRecord) := implies(isType(src, *fileData), fdInv(src.(*fileData)))
 //@ spec srcMode(src FileRecord) := ite(isType(src, *fileData), fdMode(src.(*fileData)), ret("keyvalue.(FileRecord).Mode", 0, src))
 //@ spec srcMTime(src FileRecord) := ite(isType(src, *fileData), fdMTime(src.(*fileData)), ret("keyvalue.(FileRecord).ModTime", 0, src))
@@ -379,7 +380,7 @@ package keyvalue
 
 //@ func (f *file) Seek(offset int64, whence int) (r int64, err error)
 //@   props C02 C17
-//@   requires fileInv(f)
+//@   requires fileInv(f) && roDataOK(fRec(f))
 //@   modifies f.offset
 //@   ensures "closed" implies(f.closed, r == 0 && closedError(err, f) && f.offset == old(f.offset))
 //@   ensures "whence" implies(!f.closed && whence != 0 && whence != 1 && whence != 2, err != nil)
@@ -509,6 +510,8 @@ package keyvalue
 //@   ensures "offset" implies(!f.closed, f.offset == old(writeAtPos(f)) + n)
 //@   ensures "append-lands-at-end" implies(err == nil && old(isAppend(f)) && old(hDataErr(f)) == nil && old(liveSize(fRec(f))) == old(blob.blobLen(hData(f))), old(writeAtPos(f)) == old(blob.blobLen(hData(f))) && f.offset == blob.blobLen(old(hData(f))))
 //@   ensures "inv" fileInv(f) && f.closed == old(f.closed)
+//@   ensures "namespace" [C17 C03] implies(isMem(f.fileData.fs), memSameExcept(f.fileData.fs, f.fileData.path))
+//@   ensures "no-resurrect" [C17] implies(isMem(f.fileData.fs) && !old(kvHas(f.fileData.fs, f.fileData.path)), !kvHas(f.fileData.fs, f.fileData.path))
 //@   nopanic
 
 //@ spec sizeConsistent(f *file) := implies(hDataErr(f) == nil, liveSize(fRec(f)) == blob.blobLen(hData(f)))
@@ -528,6 +531,8 @@ package keyvalue
 //@   ensures "others-kept" implies(err == nil, forall(j, 0, old(blob.blobLen(hData(f))), implies(j < off || j >= off + n, blob.blobAt(old(hData(f)), j) == old(blob.blobAt(hData(f), j)))))
 //@   ensures "gap-zero" implies(err == nil, forall(j, old(blob.blobLen(hData(f))), off, blob.blobAt(old(hData(f)), j) == 0))
 //@   ensures "inv" fileInv(f) && f.offset == old(f.offset) && f.closed == old(f.closed)
+//@   ensures "namespace" [C17 C03] implies(isMem(f.fileData.fs), memSameExcept(f.fileData.fs, f.fileData.path))
+//@   ensures "no-resurrect" [C17] implies(isMem(f.fileData.fs) && !old(kvHas(f.fileData.fs, f.fileData.path)), !kvHas(f.fileData.fs, f.fileData.path))
 //@   nopanic
 
 //@ func (f *file) Truncate(size int64) (err error)
@@ -543,15 +548,23 @@ package keyvalue
 //@                     forall(i, 0, min(size, old(blob.blobLen(hData(f)))), blob.blobAt(old(hData(f)), i) == old(blob.blobAt(hData(f), i))) &&
 //@                     forall(i, old(blob.blobLen(hData(f))), size, blob.blobAt(old(hData(f)), i) == 0))
 //@   ensures "inv" fileInv(f) && f.offset == old(f.offset) && f.closed == old(f.closed)
+//@   ensures "namespace" [C17 C03] implies(isMem(f.fileData.fs), memSameExcept(f.fileData.fs, f.fileData.path))
+//@   ensures "no-resurrect" [C17] implies(isMem(f.fileData.fs) && !old(kvHas(f.fileData.fs, f.fileData.path)), !kvHas(f.fileData.fs, f.fileData.path))
 //@   nopanic
 
 //@ func (f *file) Chmod(mode hackpadfs.FileMode) (err error)
 //@   props C17 C14 C01
-//@   requires f != nil && f.fileData != nil && f.fileData.fs != nil && f.fileData.record != nil
-//@   modifies fRec(f).mode, oncedone(fRec(f).modeOnce), f.fileData.modeOverride, world()
-//@   ensures "closed" implies(f.closed, closedError(err, f) && f.fileData.modeOverride == old(f.fileData.modeOverride) && world() == old(world()))
+//@   requires fileInv(f)
+//@   modifies fRec(f).data, fRec(f).dataErr, fRec(f).dataDone, oncedone(fRec(f).dataOnce), fRec(f).mode, oncedone(fRec(f).modeOnce), fRec(f).modTime, oncedone(fRec(f).modTimeOnce),
+//@            f.fileData.modeOverride, world(), mapOf(ms(f.fileData.fs).records)
+//@   ensures "closed" implies(f.closed, closedError(err, f) && f.fileData.modeOverride == old(f.fileData.modeOverride) && world() == old(world()) && implies(isMem(f.fileData.fs), memSame(f.fileData.fs)))
 //@   ensures "bits" implies(!f.closed, f.fileData.modeOverride != nil &&
 //@                     *f.fileData.modeOverride == (old(ite(f.fileData.modeOverride != nil, *f.fileData.modeOverride, modeOf(fRec(f)))) & ^chmodBits) | (mode & chmodBits))
+//@   ensures "namespace" [C17 C03] implies(isMem(f.fileData.fs), memSameExcept(f.fileData.fs, f.fileData.path))
+//@   ensures "no-resurrect" [C17] implies(isMem(f.fileData.fs) && !old(kvHas(f.fileData.fs, f.fileData.path)), !kvHas(f.fileData.fs, f.fileData.path))
+//@   ensures "stored" [C01] implies(isMem(f.fileData.fs) && !f.closed && old(kvHas(f.fileData.fs, f.fileData.path)) && old(fdDataErr(f.fileData)) == nil, err == nil &&
+//@                     memRec(f.fileData.fs, f.fileData.path).mode == *f.fileData.modeOverride)
+//@   ensures "inv" fileInv(f) && f.offset == old(f.offset) && f.closed == old(f.closed)
 //@   nopanic
 
 //@ func newDirEntry(fs hackpadfs.FS, basePath string, name string) (d *dirEntry, err error)
@@ -600,6 +613,8 @@ package keyvalue
 //@   ensures "gap-zero" implies(err == nil, forall(j, old(blob.blobLen(hData(f))), old(writeAtPos(f)), blob.blobAt(old(hData(f)), j) == 0))
 //@   ensures "offset" implies(!f.closed, f.offset == old(writeAtPos(f)) + n)
 //@   ensures "inv" fileInv(f) && f.closed == old(f.closed)
+//@   ensures "namespace" [C17 C03] implies(isMem(f.fileData.fs), memSameExcept(f.fileData.fs, f.fileData.path))
+//@   ensures "no-resurrect" [C17] implies(isMem(f.fileData.fs) && !old(kvHas(f.fileData.fs, f.fileData.path)), !kvHas(f.fileData.fs, f.fileData.path))
 //@   nopanic
 
 //@ func (f *file) WriteAt(p []byte, off int64) (n int, err error)
@@ -617,6 +632,8 @@ package keyvalue
 //@   ensures "others-kept" implies(err == nil, forall(j, 0, old(blob.blobLen(hData(f))), implies(j < off || j >= off + n, blob.blobAt(old(hData(f)), j) == old(blob.blobAt(hData(f), j)))))
 //@   ensures "gap-zero" implies(err == nil, forall(j, old(blob.blobLen(hData(f))), off, blob.blobAt(old(hData(f)), j) == 0))
 //@   ensures "inv" fileInv(f) && f.offset == old(f.offset) && f.closed == old(f.closed)
+//@   ensures "namespace" [C17 C03] implies(isMem(f.fileData.fs), memSameExcept(f.fileData.fs, f.fileData.path))
+//@   ensures "no-resurrect" [C17] implies(isMem(f.fileData.fs) && !old(kvHas(f.fileData.fs, f.fileData.path)), !kvHas(f.fileData.fs, f.fileData.path))
 //@   nopanic
 
 // ---- access-mode wrappers (file_rwonly.go) ----
